@@ -318,7 +318,10 @@ class ElfWriter:
             entry = self.header_types.SymbolTableEntry()
             entry.st_name = self.get_string(symbol.name)
             entry.st_info = (int(st_bind) << 4) | int(st_type)
-            if symbol.defined:
+            if symbol.defined and symbol.section is None:
+                entry.st_shndx = 0xFFF1  # SHN_ABS: absolute symbol
+                entry.st_value = symbol.value
+            elif symbol.defined:
                 entry.st_shndx = self.section_numbers[symbol.section]
                 entry.st_value = (
                     symbol.value + self.obj.get_section(symbol.section).address
